@@ -346,9 +346,12 @@ class ForwardScheduler(IScheduler):
                         self.__shift_by_resource_usage_and_calendar(
                             resource, resource_usage, start, _task, left_hours
                         ),
-                        datetime.now(),
                         _task.start
                     )
+                    # Work can't end in the past. Until the project starts the clock does not matter
+                    now = datetime.now()
+                    if now > self.__start:
+                        _task.end = max(_task.end, now)
                 else:
                     _task.end = max([t.end for t in _task.children if t.end is not None])
 
